@@ -88,7 +88,7 @@ def check_mesh_on_grid(part, vol, level, spacing, direction, case, key, expect_s
     sp = np.asarray(spacing, dtype=float)
     idx = verts / sp
     shape = np.array(vol.shape)
-    if idx.min() < -1e-6 or (idx > shape - 1 + 1e-6).any():
+    if not (idx.min() >= -1e-6) or (idx > shape - 1 + 1e-6).any():
         part.fail("vertex-outside-grid:%s" % key, "a vertex lies outside the sampled grid", case)
         return None
     fr = idx - np.floor(idx + 1e-9)
@@ -504,7 +504,7 @@ def node_level_worker(part, arg):
             except Exception as e:
                 part.fail("node-level:raise:%s" % route, "promolecule surface (%s) of %s at the density of a grid node (isovalue %.6g) raised %s: %s" % (route, arg, iso, type(e).__name__, str(e)[:80]), case)
                 continue
-            if f.size == 0 or f.min() < 0 or f.max() >= len(v):
+            if f.size == 0 or not (f.min() >= 0) or f.max() >= len(v):
                 part.fail("node-level:indices:%s" % route, "promolecule surface (%s) of %s at the density of a grid node: face indices %s..%s for %d vertices"
                           % (route, arg, f.min() if f.size else None, f.max() if f.size else None, len(v)), case)
                 continue
